@@ -901,7 +901,7 @@ def replay_paths(kind, paths, refs, build, scratch, tag, mutant=None, record=Tru
     while todo or first:
         first = False
         rounds += 1
-        if rounds > 60:
+        if rounds > len(paths) + 10:      # every restart decides at least one path (a crash is an outcome)
             problems.append("too many worker restarts for kind %s" % kind)
             break
         job = dict(type="lifecycle", kind=kind, refs=refs, refvals=refvals, paths=todo, build=build,
@@ -1162,6 +1162,22 @@ def _touch_table(kind):
     return out
 
 
+def predicted_crash(g, path):
+    """the specification predicts that this path hands F = None to a shell kernel (failure signature 'F' of a
+    ConeCyl calc_fint query): the interpreter dies and the worker process has to be restarted"""
+    u = g.init
+    for m in path:
+        e = g.edges.get((u, m))
+        if e is None:
+            return False
+        if e[1] == "fails" and e[2] == ("", "F") and g.kind in ("Cyl", "Cone"):
+            return True
+        if e[1] == "fails" and False:
+            return False
+        u = e[0]
+    return False
+
+
 def random_walks(g, maxlen, count, rng):
     out = []
     for _ in range(count):
@@ -1395,7 +1411,7 @@ def _run(rep, rng, tier, seed, build, mutant, kinds, maxlen, scratch):
                                       workers=2 if quick else 8, timeout=1500, fast=False)))
 
     # 3. binding A+B: replay TLC's paths on real objects, record, let Trace_Lifecycle judge
-    plan, stats = {}, []
+    plan, stats, excluded_crash = {}, [], {}
     for kind in kinds:
         g = graphs[kind]
         budget = (len(g.edges) + 10) if quick else 800       # the edge cover is never cut; trajectories are sampled
@@ -1425,12 +1441,22 @@ def _run(rep, rng, tier, seed, build, mutant, kinds, maxlen, scratch):
                 seen.add(tuple(p))
                 paths.append(p)
         paths.sort(key=lambda p: (len(p), p))          # shortest first: canonical values come from first calls
+        crashing = [p for p in paths if predicted_crash(g, p)]
+        if len(crashing) > 12:
+            # each of them costs a restart of a worker process: the 12 shortest are replayed (the crash is an
+            # outcome like any other, judged against KF_C20_ConeCyl_calc_fint_L), the others are not
+            drop = set(map(tuple, crashing[12:]))
+            paths = [p for p in paths if tuple(p) not in drop]
+            excluded_crash[kind] = len(drop)
         st["paths"] = len(paths)
         st["pairs"] = len(pairs)
         st["random_walks"] = len(walks)
         stats.append(st)
         plan[kind] = paths
     rep.cov["graph"] = stats
+    rep.cov["paths_excluded_because_the_interpreter_would_crash"] = dict(
+        count=excluded_crash, reason="the specification predicts a shell calc_fint query with F = None (segmentation "
+        "fault, KF_C20_ConeCyl_calc_fint_L); 12 such paths per kind are replayed, each costs a process restart")
     total_paths = sum(len(p) for p in plan.values())
     nproc_total = 16
     replays, problems, refvals_of, twin_count = {}, [], {}, {}
